@@ -57,6 +57,14 @@ def native_replay(path):
         return 3, {'verdict': 'harness-timeout'}
 
 
+def ast_literal(node):
+    import ast as _ast
+    try:
+        return _ast.literal_eval(node) if node is not None else None
+    except Exception:
+        return None
+
+
 def safe_name(s):
     return re.sub(r'[^A-Za-z0-9_.-]+', '_', s)[:150]
 
@@ -122,7 +130,9 @@ def main(argv=None):
             print(f'no contracts for {prop}')
             return 3
         tier_opts = {'timeout_ms': 10000 if a.tier == 'quick' else 60000}
-        reports, ex = run(mods, names, procs=a.j, opts=tier_opts)
+        os.environ['VERIF_TIER'] = a.tier
+        sym_names = [n for n in names if not (a.tier == 'quick' and ex0.contracts[n].opts.get('symbolic_tier') == 'thorough')]
+        reports, ex = run(mods, sym_names, procs=a.j, opts=tier_opts)
     except Exception as e:
         print(f'CHECKER-CRASH {type(e).__name__}: {e}')
         traceback.print_exc()
@@ -212,6 +222,48 @@ def main(argv=None):
         else:
             undecided.append(full)
 
+    # ---- bounded stand-ins by exhaustive native enumeration (contracts that define native_grid)
+    native_bounded = []
+    for n in names:
+        c = ex.contracts[n]
+        if 'native_grid' not in c.ci.methods:
+            continue
+        nsh = a.j
+        procs = [subprocess.Popen([VENV_PY, os.path.join(ROOT, 'tools', 'native_bounded.py'), c.ci.module.name, n, str(i), str(nsh)],
+                                  stdout=subprocess.PIPE, stderr=subprocess.PIPE, text=True,
+                                  env=dict(os.environ, FPY_REPO=REPO, VERIF_TIER=a.tier)) for i in range(nsh)]
+        tot = {'function': c.target, 'contract': n, 'cases': 0, 'pre_ok': 0, 'failures': 0, 'tool': 'exhaustive native enumeration of the runtime contract on the real code',
+               'bound': ast_literal(c.ci.class_attrs.get('native_bound_note'))}
+        fails = []
+        for pr in procs:
+            so, se = pr.communicate(timeout=3000)
+            try:
+                d = json.loads(so.strip().split('\n')[-1])
+            except Exception:
+                crashes.append({'contract': n, 'case': 'native-bounded', 'error': (se or so)[-800:]})
+                continue
+            tot['cases'] += d['cases']
+            tot['pre_ok'] += d['pre_ok']
+            tot['failures'] += len(d['failures']) + d.get('more_failures', 0)
+            fails += d['failures']
+        native_bounded.append(tot)
+        for i, f in enumerate(fails[:8]):
+            doc = {'property': prop, 'obligation': f"{c.short}#{f['failed'][0]}", 'contract': n,
+                   'contract_module': c.ci.module.name, 'args': f['args'], 'ghost': f.get('ghost', {}),
+                   'note': 'found by the bounded native enumeration (stand-in)'}
+            path = os.path.join(rdir, safe_name(f'bounded_{n}.{i}') + '.json')
+            with open(path, 'w') as fh:
+                json.dump(doc, fh, indent=1)
+            code, rdoc = native_replay(path)
+            if code == 1:
+                oname = f"{c.short}#{(rdoc.get('failed') or ['?'])[0]}"
+                m = known_matches(kf, prop, oname, rdoc, path)
+                if m is not None:
+                    known_reported.append({'obligation': oname, 'finding': m.get('id'), 'what': m.get('what'), 'replay': path})
+                else:
+                    violations.append({'obligation': oname + ' (bounded native enumeration)', 'replay': path, 'failed': rdoc.get('failed'),
+                                       'inputs': rdoc.get('inputs'), 'outcome': rdoc.get('outcome'), 'result': rdoc.get('result')})
+
     # ---- encoder cross-check (CPython vs pyvc's interpreter on concrete inputs) + runtime contracts
     xc = {}
     try:
@@ -293,7 +345,7 @@ def main(argv=None):
             'obligations_total_generated': len(obligations),
             'path_queries': sum(o['paths'] for o in obligations.values()),
             'undischarged_not_in_baseline': undecided,
-            'bounded_standins': bounded,
+            'bounded_standins': bounded + native_bounded,
             'missing_from_run': missing,
             'unsupported': unsupported, 'crashes': crashes,
             'known_findings_reported': known_reported,
